@@ -692,11 +692,12 @@ theorem sweepStep_key {s s' : State} {out : Out} (hs : sweepStep s = .ok (s', ou
   refine ⟨h4, ?_, fun k => ?_⟩
   · show pendingCmds (sweepEntries s (s.ttl.filter (due s)) []).1 = pendingCmds s
     simp only [pendingCmds, sp'.queue, sp'.pend]
-  · by_cases hmem : k ∈ evs.map (·.2.1)
+  · obtain ⟨ks, _, hks⟩ := sp.storeSub
+    by_cases hmem : k ∈ ks
     · refine .swept evs rfl hs0 ?_
-      rw [h1, sp.store, AMap.get?_delKeys]; simp [hmem]
+      rw [h1, hks, AMap.get?_delKeys]; simp [hmem]
     · refine .same ?_
-      rw [h1, sp.store, AMap.get?_delKeys]; simp [hmem]
+      rw [h1, hks, AMap.get?_delKeys]; simp [hmem]
 
 /-! ### `shutdown()` and parked calls -/
 
